@@ -1,6 +1,7 @@
 import OtelVerif.Common.Line
 import OtelVerif.Model.C07
 import OtelVerif.Model.C07Map
+import OtelVerif.Model.C07Nest
 /-! driver for C07: model `c07-ptrslice` (heap model of generated pointer slices) -/
 open OtelVerif OtelVerif.Line OtelVerif.C07
 
@@ -210,7 +211,122 @@ def handler : Handler DS where
 
 end MapD
 
+/-! ## model `c07-nest`: nested `pcommon.Value` / `Map` / `Slice` (exact differential only) -/
+namespace NestD
+open OtelVerif.C07.N
+
+/-- dump with capacities: `n`, `c<kind>.<v>`, `b<hex>`, `{cap|k=v,…}`, `[cap|v,…]` -/
+def showV : Nat → N.Heap → N.V → String
+  | _, _, .nil => "n"
+  | _, _, .scalar k v => s!"c{k}.{v}"
+  | _, h, .bytes i => "b" ++ (if (h.wb i).isEmpty then "" else hexBytes (h.wb i))
+  | d + 1, h, .list km i =>
+    let hd := h.wl i
+    let items := hd.live.map (fun kv => if km then s!"{kv.key}={showV d h kv.val}" else showV d h kv.val)
+    (if km then "{" else "[") ++ s!"{hd.cap}|" ++ ",".intercalate items ++ (if km then "}" else "]")
+  | 0, _, .list _ _ => "CUT"
+
+def parseNewV (t : String) : Option NewV :=
+  if t = "n" then some .nil
+  else if t = "m" then some (.list true)
+  else if t = "a" then some (.list false)
+  else if t.startsWith "c" then
+    match ((t.drop 1).toString.splitOn ".") with
+    | [k, v] => do some (.scalar (← k.toNat?) (← v.toNat?))
+    | _ => none
+  else if t.startsWith "b" then
+    let h := (t.drop 1).toString
+    if h.isEmpty then some (.bytes []) else (unhexBytes h).map .bytes
+  else none
+
+def parseSel (t : String) : Option Sel :=
+  if t = "push" then some .push
+  else if t.startsWith "k" then ((t.drop 1).toString.toNat?).map .key
+  else if t.startsWith "i" then ((t.drop 1).toString.toNat?).map .idx
+  else none
+
+def parsePath (t : String) : Option (List Sel) :=
+  if t = "-" then some [] else (t.splitOn "/").mapM parseSel
+
+/-- slot index of a path segment in a container -/
+def segIdx (hd : N.Hdr) : Sel → Option Nat
+  | .key k => N.find hd.live k
+  | .idx i => if i < hd.live.length then some i else none
+  | .push => none
+
+/-- the `Value` position a path names -/
+def resolveLoc (s : N.St) (r : Nat) : List Sel → Option N.Loc
+  | [] => some (.root r)
+  | p =>
+    let rec go (v : N.V) : List Sel → Option N.Loc
+      | [] => none
+      | [seg] => match v with
+        | .list _ o => (segIdx (s.h.wl o) seg).map (fun i => N.Loc.slot o i)
+        | _ => none
+      | seg :: rest => match v with
+        | .list _ o => (segIdx (s.h.wl o) seg).bind fun i => ((s.h.wl o).live[i]?).bind fun kv => go kv.val rest
+        | _ => none
+    go (s.root r) p
+
+def resolveV (s : N.St) (r : Nat) (p : List Sel) : Option N.V := (resolveLoc s r p).bind (readLoc s)
+
+def resolveObj (s : N.St) (r : Nat) (p : List Sel) : Option Nat :=
+  match resolveV s r p with
+  | some (.list _ o) => some o
+  | _ => none
+
+def parseOp (s : N.St) (toks : List String) : Option N.Op :=
+  match toks with
+  | ["setroot", r, x] => do some (.setRoot (← r.toNat?) (← parseNewV x))
+  | ["setslot", r, p, sel, x, c] => do
+    let r ← r.toNat?
+    some (.setSlot r (← resolveObj s r (← parsePath p)) (← parseSel sel) (← parseNewV x) (← kvNat [c] "cap"))
+  | ["bapp", r, p, x] => do
+    let r ← r.toNat?
+    match ← resolveV s r (← parsePath p) with
+    | .bytes b => some (.bytesAppend r b (← x.toNat?))
+    | _ => none
+  | ["remove", r, p, k] => do let r ← r.toNat?; some (.remove r (← resolveObj s r (← parsePath p)) (← k.toNat?))
+  | ["removeif", r, p, m] => do
+    let r ← r.toNat?
+    some (.removeIf r (← resolveObj s r (← parsePath p)) (← (kv [m] "mask").bind parseMask))
+  | ["ensurecap", r, p, n] => do let r ← r.toNat?; some (.ensureCap r (← resolveObj s r (← parsePath p)) (← n.toNat?))
+  | ["clear", r, p] => do let r ← r.toNat?; some (.clear r (← resolveObj s r (← parsePath p)))
+  | ["copyval", rs, ps, rd, pd] => do
+    let rs ← rs.toNat?; let rd ← rd.toNat?
+    some (.copyVal rs (← resolveLoc s rs (← parsePath ps)) rd (← resolveLoc s rd (← parsePath pd)))
+  | ["copylist", rs, ps, rd, pd] => do
+    let rs ← rs.toNat?; let rd ← rd.toNat?
+    some (.copyList rs (← resolveObj s rs (← parsePath ps)) rd (← resolveObj s rd (← parsePath pd)))
+  | ["moveroot", a, b] => do some (.moveRoot (← a.toNat?) (← b.toNat?))
+  | ["markro", r] => do some (.markRO (← r.toNat?))
+  | _ => none
+
+def normalize (s : N.St) : N.St :=
+  let ab := ((List.range s.h.next).map s.h.wb).toArray
+  let al := ((List.range s.h.next).map s.h.wl).toArray
+  { s with h := { s.h with wb := fun j => ab.getD j [], wl := fun j => al.getD j {} } }
+
+structure DS where
+  H : Nat := 0
+  m : N.St := St.init
+
+def handler : Handler DS where
+  init := {}
+  onCase := fun s toks => { s with H := (kvNat toks "h").getD 0 }
+  onOp := fun s toks =>
+    match parseOp s.m toks with
+    | some op =>
+      let (m', p) := N.step s.m op
+      let m' := normalize m'
+      let dump := (List.range s.H).map (fun r => showV m'.dep m'.h (m'.root r))
+      ({ s with m := m' }, ["obs " ++ (if p then "panic" else "ok") ++ " " ++ " ".intercalate dump])
+    | none => (s, ["obs bad-op"])
+
+end NestD
+
 end OtelVerif.Drivers.C07
 
 def main : IO UInt32 :=
-  runMulti [("c07-ptrslice", run OtelVerif.Drivers.C07.handler), ("c07-map", run OtelVerif.Drivers.C07.MapD.handler)]
+  runMulti [("c07-ptrslice", run OtelVerif.Drivers.C07.handler), ("c07-map", run OtelVerif.Drivers.C07.MapD.handler),
+    ("c07-nest", run OtelVerif.Drivers.C07.NestD.handler)]
